@@ -200,7 +200,7 @@ class SysSim(Engine):
     def _gen_c19(self, rng, world, task, tier):
         ops = [{"op": "fill", "vseed": rng.randint(0, 10 ** 6), "inf": rng.randint(1, 1000) if rng.chance(0.12) else 0}]
         if world["stocks"] and rng.chance(0.3):
-            ops.insert(0, {"op": "user_arrays"})
+            ops.insert(0, {"op": "user_arrays", "relabel": rng.choice([None, "inflow", "outflow"])})
         for _ in range(rng.randint(1, 5)):
             kind = rng.weighted([("to_dict", 3), ("pickle", 2), ("flows_csv", 3), ("stocks_csv", 3), ("to_dfs", 1)])
             if world.get("mixed") and kind in ("flows_csv", "stocks_csv"):
@@ -827,6 +827,17 @@ class SysSim(Engine):
                 so = sys_.stocks[s["name"]]
                 kw = {"dims": so.dims, "name": so.name, "process": so.process, "time_letter": so.time_letter,
                       "inflow": StockArray(dims=so.dims), "outflow": StockArray(dims=so.dims, name="my outflow"), "stock": StockArray(dims=so.dims)}
+                if op.get("relabel") and len(so.dims.dim_list) >= 2:
+                    # one of the author's arrays is over the stock's letters and lengths but carries its own labels and dimension name
+                    # (another scenario's regions): the stock accepts it, and every export must show that array under *its* labels
+                    from flodym import Dimension, DimensionSet
+                    dl_ = list(so.dims)
+                    d_ = dl_[-1]
+                    if d_.dtype is not None and all(isinstance(x, (int, float, str)) and not isinstance(x, bool) for x in d_.items):
+                        items = [("alt " + x) if isinstance(x, str) else (x + 5000) for x in d_.items]
+                        dl_[-1] = Dimension(name=d_.name + " (alt)", letter=d_.letter, items=items, dtype=d_.dtype)
+                        kw[op["relabel"]] = StockArray(dims=DimensionSet(dim_list=dl_), name="alt labels")
+                        self._probe(st, "stock_array_with_own_labels")
                 if s["lt"] is not None:
                     kw["lifetime_model"] = so.lifetime_model
                 if s["cls"] == "stockdriven":
